@@ -4,6 +4,7 @@ import (
 	"encoding/json"
 	"flag"
 	"fmt"
+	"go/types"
 	"os"
 	"path/filepath"
 	"sort"
@@ -11,6 +12,8 @@ import (
 	"strings"
 	"sync"
 	"time"
+
+	"golang.org/x/tools/go/ssa"
 )
 
 // PropSpec describes how one property is decided: which functions are verified, in which package.
@@ -22,6 +25,7 @@ type PropSpec struct {
 	Bounded   []string `json:"bounded,omitempty"`
 	Assume    []string `json:"assumptions,omitempty"`
 	Extra     []string `json:"extra_cmds,omitempty"`
+	Static    []string `json:"static,omitempty"` // e.g. "immutable:PFCPConn.ts.local"
 }
 
 type KnownFinding struct {
@@ -133,6 +137,12 @@ func cmdCheck(args []string) {
 		}(i, k)
 	}
 	wg.Wait()
+	// static obligations: fields that only their declared writers may assign
+	for _, st := range ps.Static {
+		if strings.HasPrefix(st, "immutable:") {
+			results = append(results, verifyImmutable(P, strings.TrimPrefix(st, "immutable:")))
+		}
+	}
 
 	ev := evidence{Load: loadSecs}
 	ev.init()
@@ -421,4 +431,82 @@ func (P *Program) reachableFrom(entry string, exclude []string) []string {
 // tryReplay: turn a solver model into a Go test against the real code (see replay.go).
 func tryReplay(P *Program, verifDir, prop string, o *Obligation, info map[string]interface{}) (string, bool) {
 	return writeReplay(verifDir, prop, o.Name, info), false
+}
+
+// verifyImmutable: a purely syntactic (SSA-level) obligation per function of the package: no store
+// whose target is the field (or an enclosing struct of it) outside the declared writers.
+func verifyImmutable(P *Program, path string) *FuncResult {
+	res := &FuncResult{Key: "immutable:" + path, Script: nil}
+	var im *Immutable
+	for i := range P.cs.immutables {
+		if P.cs.immutables[i].Path == path {
+			im = &P.cs.immutables[i]
+		}
+	}
+	if im == nil {
+		res.Err = "no immutable declaration for " + path
+		return res
+	}
+	x := newExec(P, false)
+	parts := strings.Split(path, ".")
+	t := x.lookupType(parts[0])
+	if t == nil {
+		res.Err = "unknown type " + parts[0]
+		return res
+	}
+	defer func() {
+		if r := recover(); r != nil {
+			res.Err = fmt.Sprint(r)
+		}
+	}()
+	want := x.fieldPath(t, parts[1:])
+	writer := map[string]bool{}
+	for _, w := range im.Writers {
+		writer[P.resolveKey(w)] = true
+	}
+	for _, fn := range P.allFns {
+		file := P.fset.Position(fn.Pos()).Filename
+		if strings.HasSuffix(file, "_test.go") || strings.HasSuffix(file, "_verif.go") || len(fn.Blocks) == 0 {
+			continue
+		}
+		n := 0
+		for _, b := range fn.Blocks {
+			for _, ins := range b.Instrs {
+				s, ok := ins.(*ssa.Store)
+				if !ok {
+					continue
+				}
+				kind, root, p, _ := func() (k string, r types.Type, pp []int, l bool) {
+					defer func() { recover() }()
+					return x.storeTarget(s.Addr)
+				}()
+				if kind != "H" || root == nil || !types.Identical(root, t) {
+					continue
+				}
+				// the store hits the field if one path is a prefix of the other
+				hit := true
+				for i := 0; i < len(p) && i < len(want); i++ {
+					if p[i] != want[i] {
+						hit = false
+					}
+				}
+				if !hit {
+					continue
+				}
+				n++
+				o := &Obligation{Name: fmt.Sprintf("immutable/%s/written-only-by-declared-writers@%s#%d", path, shortKey(P, fnKey(fn)), n), Kind: "immutable", Func: fnKey(fn), Src: fmt.Sprintf("%s:%d", shortFile(P.fset.Position(s.Pos()).Filename), P.fset.Position(s.Pos()).Line)}
+				if writer[fnKey(fn)] {
+					o.Status, o.Solver = "unsat", "syntactic"
+				} else {
+					o.Status = "sat"
+					o.Model = fmt.Sprintf("%s assigns %s (declared immutable; allowed writers: %v)", shortKey(P, fnKey(fn)), path, im.Writers)
+				}
+				res.Obls = append(res.Obls, o)
+			}
+		}
+	}
+	if len(res.Obls) == 0 {
+		res.Obls = append(res.Obls, &Obligation{Name: "immutable/" + path + "/no-store-anywhere", Kind: "immutable", Status: "unsat", Solver: "syntactic"})
+	}
+	return res
 }
